@@ -176,5 +176,8 @@ def run(ck: Checker):
     ck.check({norm(h.type) for h in handlers} == {'NoSolutionError', 'SolverTimeOutError'} and all(isinstance(h.body[-1], ast.Continue) for h in handlers), 'C04.SIZE', m, fn,
              'no solution / time-out leave the circuit unchanged', 'exception handling changed', construct='minimize_subcircuits: search failures')
     ck.floor('C04.SIZE', 4)
+    ck.rule('C19.SUBC', 'replace_subcircuit, which splices the resynthesised cone, keeps outputs (order, multiplicity) and external users (shared with C19)')
+    from .C19 import subc_rules
+    subc_rules(ck)
     ck.assume('NOT DECIDED: cut filtering, don\'t-care extraction, splice correctness, interface and truth-table equality in general, size non-increase')
     ck.assume('cirbo/minimization/subcircuit.py cannot be imported in this sandbox (mockturtle_wrapper, pysat missing): no test exercises it')
